@@ -1334,3 +1334,185 @@ Proof.
       * intros Hi. left. rewrite set_waker_keys. exact Hi.
     + apply InvH_wake. exact H.
 Qed.
+
+(** ** RecvFuture::poll *)
+(* K-part bookkeeping shared by the receive-side transitions: the effect of one future's record
+   change on the four counters, given the values of the predicates before and after *)
+Lemma K_after (s s' : st) (dr_w dr_i : nat) (nr_w nr_i : nat) :
+  InvK s ->
+  tn s' = tn s -> hs s' = hs s -> sc s' = sc s -> rc s' = rc s -> ncap s' = ncap s ->
+  (cnt pw_r (fs s') + dr_w = cnt pw_r (fs s) + nr_w)%nat ->
+  (cnt pi_r (fs s') + dr_i = cnt pi_r (fs s) + nr_i)%nat ->
+  (t12 (tn s) = false -> cnt pw_s (fs s') = 0%nat \/ (ncap s <= nq s' + cnt pi_s (fs s'))%nat) ->
+  (t06 (tn s) = false -> t12 (tn s) = false ->
+   (cnt pw_r (fs s) = 0%nat \/ (nq s <= cnt pi_r (fs s))%nat) ->
+   (cnt pw_r (fs s) + nr_w - dr_w = 0)%nat \/ (nq s' <= cnt pi_r (fs s) + nr_i - dr_i)%nat) ->
+  InvK s'.
+Proof.
+  intros [K1 K2 K3] Et Eh Es Er Ec C1 C2 Hs Hr. fold (nq s) in K2, K3. fold (ncap s) in K3.
+  apply InvK_intro.
+  - rewrite Et, Eh, Es, Er. exact K1.
+  - rewrite Et. intros T1 T2. specialize (Hr T1 T2 (K2 T1 T2)). clear - Hr C1 C2. lia.
+  - rewrite Et, Ec. exact Hs.
+Qed.
+
+(* K3 after try_recv_core popped one item *)
+Lemma K3_after_pop s s1 :
+  InvK s -> eff_s s s1 -> (nq s = nq s1 + 1)%nat ->
+  t12 (tn s) = false -> cnt pw_s (fs s1) = 0%nat \/ (ncap s <= nq s1 + cnt pi_s (fs s1))%nat.
+Proof.
+  intros [_ _ K3] (_ & _ & b & Hb & E1 & E2 & E3) Hq T. fold (nq s) in K3. fold (ncap s) in K3. specialize (K3 T).
+  clear - K3 Hb E1 E2 E3 Hq. destruct b as [|[|b]]; [specialize (E3 eq_refl) | |]; lia.
+Qed.
+
+(* the record of a receive future f that is not queued is replaced by an unregistered one *)
+Lemma unq_done f x0 xd s :
+  InvD [] s -> InvW s -> getF f s = Some x0 -> f_recv x0 = true ->
+  ~ In f (akeys (arq s)) ->
+  f_recv xd = true -> f_h xd = f_h x0 -> f_live xd = f_live x0 -> f_item xd = f_item x0 -> f_reg xd = false ->
+  InvD [] (setF f xd s) /\ InvW (setF f xd s).
+Proof.
+  intros HD HW Hg Hrv Hnq E1 E2 E3 E4 E5.
+  split.
+  - apply InvD_setF with x0; [exact HD | apply (w_fnd s HW) | exact Hg |].
+    intros u. unfold cellp. rewrite E3, E4. reflexivity.
+  - assert (Heq : core_eq (with_arq (arq s) (with_asq (asq s) (setF f xd s))) (setF f xd s)) by core_eq_refl.
+    apply (InvW_ext _ _ Heq). apply InvW_upd with x0.
+    + exact HW.
+    + exact Hg.
+    + congruence.
+    + exact E2.
+    + rewrite E3. auto.
+    + rewrite E5. discriminate.
+    + apply (w_arq_nd s HW).
+    + apply (w_asq_nd s HW).
+    + intros f1 w1 Hi. left. split; [|exact Hi]. intros ->. apply Hnq. eapply In_akeys; eauto.
+    + intros f1 w1 Hi. left. split; [|exact Hi]. intros ->. eapply not_in_asq_recv; eauto.
+    + auto.
+    + auto.
+    + rewrite E5. discriminate.
+    + intros _ Hi. contradiction.
+    + intros _ Hi. destruct (akeys_In _ _ Hi) as [w1 Hi1]. exfalso. eapply not_in_asq_recv; eauto.
+    + intros _ Hi. contradiction.
+    + rewrite E1. discriminate.
+    + intros Hi. contradiction.
+Qed.
+
+(* registering the waiter (f, w): poll_recv_internal's `push_back` *)
+Lemma reg_recv f w x0 xw s :
+  InvD [] s -> InvW s -> getF f s = Some x0 -> f_recv x0 = true -> f_live x0 = true -> f_done x0 = false ->
+  ~ In f (akeys (arq s)) -> sc s <> 0 ->
+  f_recv xw = true -> f_h xw = f_h x0 -> f_live xw = true -> f_done xw = false -> f_item xw = f_item x0 ->
+  f_reg xw = true -> f_state xw = Waiting ->
+  InvD [] (with_arq (arq s ++ [(f, w)]) (setF f xw s)) /\ InvW (with_arq (arq s ++ [(f, w)]) (setF f xw s)).
+Proof.
+  intros HD HW Hg Hrv Hl Hd Hnq Hsc E1 E2 E3 E4 E5 E6 E7.
+  assert (Heq : core_eq (with_arq (arq s ++ [(f, w)]) (with_asq (asq s) (setF f xw s)))
+                        (with_arq (arq s ++ [(f, w)]) (setF f xw s))) by core_eq_refl.
+  split.
+  - apply (InvD_ext [] _ _ Heq). apply InvD_upd with x0; [exact HD | apply (w_fnd s HW) | exact Hg |].
+    intros u. unfold cellp. rewrite E3, E5, Hl. reflexivity.
+  - apply (InvW_ext _ _ Heq). apply InvW_upd with x0.
+    + exact HW.
+    + exact Hg.
+    + congruence.
+    + exact E2.
+    + auto.
+    + auto.
+    + rewrite akeys_app. apply NoDup_app_single; [apply (w_arq_nd s HW) | exact Hnq].
+    + apply (w_asq_nd s HW).
+    + intros f1 w1 Hi. apply in_app_or in Hi. destruct Hi as [Hi|[Hi|[]]].
+      * left. split; [|exact Hi]. intros ->. apply Hnq. eapply In_akeys; eauto.
+      * inversion Hi; subst. right. auto.
+    + intros f1 w1 Hi. left. split; [|exact Hi]. intros ->. eapply not_in_asq_recv; eauto.
+    + intros f1 _ Hi. rewrite akeys_app. apply in_or_app. left. exact Hi.
+    + auto.
+    + intros _ _. rewrite Hrv. rewrite akeys_app. apply in_or_app. right. left. reflexivity.
+    + intros E. contradiction.
+    + intros _ Hi. destruct (akeys_In _ _ Hi) as [w1 Hi1]. exfalso. eapply not_in_asq_recv; eauto.
+    + intros _ _. exact E6.
+    + rewrite E1. discriminate.
+    + intros _. rewrite E7. reflexivity.
+Qed.
+
+Lemma preds_recv_unq x0 :
+  f_recv x0 = true -> (f_reg x0 = true -> is_waiting (f_state x0) = false) ->
+  pw_r x0 = false /\ pw_s x0 = false /\ pi_s x0 = false /\ (b2n (pi_r x0) <= 1)%nat.
+Proof.
+  intros Hr Hn. unfold pw_r, pw_s, pi_s. rewrite Hr. cbn [negb andb]. repeat split.
+  - destruct (f_reg x0) eqn:E; [rewrite (Hn eq_refl)|]; reflexivity.
+  - unfold b2n. destruct (pi_r x0); lia.
+Qed.
+
+(* recv_try for a future whose waiter is not queued (fresh, woken, or CLOSED-woken and unlinked) *)
+Lemma recv_try_unq f w x0 s :
+  Inv s -> getF f s = Some x0 -> f_recv x0 = true -> f_live x0 = true -> f_done x0 = false ->
+  (f_reg x0 = true -> is_waiting (f_state x0) = false) ->
+  ~ In f (akeys (arq s)) ->
+  Inv (fst (recv_try f w false (set_reg false x0) s)).
+Proof.
+  intros H Hg Hrv Hl Hd Hnw Hnq. destruct H as [HD [HW HK]].
+  set (x := set_reg false x0).
+  destruct (preds_recv_unq x0 Hrv Hnw) as (Q1 & Q3 & Q4 & Q2).
+  unfold recv_try.
+  pose proof (try_recv_core_core [] s HD HW) as Hs.
+  destruct (try_recv_core s) as [s1 [v| |]]; cbn [fst].
+  - (* a value: complete *)
+    destruct Hs as (HD1 & HW1 & Hq & Hrecvd & Fr & Harq & Hacc & Eff & Hkeep).
+    destruct Fr as (Fcap & Ffx & Fsc & Frc & Fhs & Fnext & Fback & Fdropped & Ffreed & Ftn & Fdk).
+    assert (G1 : getF f s1 = Some x0) by (apply Hkeep; assumption).
+    set (xd := set_done (set_reg false x)).
+    assert (Hnq1 : ~ In f (akeys (arq s1))) by (rewrite Harq; exact Hnq).
+    destruct (unq_done f x0 xd s1 HD1 HW1 G1 Hrv Hnq1 Hrv eq_refl eq_refl eq_refl eq_refl) as [HD2 HW2].
+    split; [exact HD2|]. split; [exact HW2|].
+    destruct (cnt4 f x0 xd s1 (setF f xd s1) (w_fnd s1 HW1) G1 eq_refl) as (C1 & C2 & C3 & C4).
+    destruct (preds_unreg xd eq_refl) as (D1&D2&D3&D4).
+    rewrite D1, Q1 in C1. rewrite D2 in C2. rewrite D3, Q3 in C3. rewrite D4, Q4 in C4. cbn [b2n] in C1, C2, C3, C4.
+    destruct Eff as (Er1 & Er2 & Es).
+    assert (Hlen : nq s = (nq s1 + 1)%nat) by (unfold nq; rewrite Hq; cbn [length]; clear; lia).
+    apply (K_after s (setF f xd s1) 0 (b2n (pi_r x0)) 0 0 HK).
+    + exact Ftn.
+    + exact Fhs.
+    + exact Fsc.
+    + exact Frc.
+    + unfold ncap. st_goal. rewrite Fcap. reflexivity.
+    + rewrite <- Er1. clear - C1. lia.
+    + rewrite <- Er2. clear - C2. lia.
+    + intros T. pose proof (K3_after_pop s s1 HK (conj Er1 (conj Er2 Es)) Hlen T) as K.
+      change (nq (setF f xd s1)) with (nq s1). clear - K C3 C4. lia.
+    + intros _ _ K. change (nq (setF f xd s1)) with (nq s1). clear - K Hlen Q2. lia.
+  - (* empty: park *)
+    destruct Hs as (-> & Hq & Hsc).
+    assert (Eq : queued f (arq s) = false) by (apply queued_false; exact Hnq).
+    rewrite Eq. cbn [fst].
+    set (xw := set_reg true (set_state Waiting x)).
+    destruct (reg_recv f w x0 xw s HD HW Hg Hrv Hl Hd Hnq Hsc Hrv eq_refl Hl Hd eq_refl eq_refl eq_refl) as [HD2 HW2].
+    split; [exact HD2|]. split; [exact HW2|].
+    destruct (cnt4 f x0 xw s (with_arq (arq s ++ [(f, w)]) (setF f xw s)) (w_fnd s HW) Hg eq_refl) as (C1 & C2 & C3 & C4).
+    assert (W1 : pw_r xw = true) by (unfold pw_r; cbn; rewrite Hrv; reflexivity).
+    assert (W2 : pi_r xw = false) by (unfold pi_r; cbn; rewrite Hrv; reflexivity).
+    assert (W3 : pw_s xw = false) by (unfold pw_s; cbn; rewrite Hrv; reflexivity).
+    assert (W4 : pi_s xw = false) by (unfold pi_s; cbn; rewrite Hrv; reflexivity).
+    rewrite W1, Q1 in C1. rewrite W2 in C2. rewrite W3, Q3 in C3. rewrite W4, Q4 in C4. cbn [b2n] in C1, C2, C3, C4.
+    apply (K_after s (with_arq (arq s ++ [(f, w)]) (setF f xw s)) 0 (b2n (pi_r x0)) 1 0 HK); try reflexivity.
+    + clear - C1. lia.
+    + clear - C2. lia.
+    + intros T. destruct HK as [_ _ K3]. fold (nq s) in K3. fold (ncap s) in K3. specialize (K3 T).
+      change (nq (with_arq (arq s ++ [(f, w)]) (setF f xw s))) with (nq s). clear - K3 C3 C4. lia.
+    + intros _ _ _. right. change (nq (with_arq (arq s ++ [(f, w)]) (setF f xw s))) with (nq s).
+      unfold nq. rewrite Hq. cbn [length]. clear. lia.
+  - (* disconnected and drained: complete *)
+    destruct Hs as (-> & Hq & Hsc).
+    set (xd := set_done (set_reg false x)).
+    destruct (unq_done f x0 xd s HD HW Hg Hrv Hnq Hrv eq_refl eq_refl eq_refl eq_refl) as [HD2 HW2].
+    split; [exact HD2|]. split; [exact HW2|].
+    destruct (cnt4 f x0 xd s (setF f xd s) (w_fnd s HW) Hg eq_refl) as (C1 & C2 & C3 & C4).
+    destruct (preds_unreg xd eq_refl) as (D1&D2&D3&D4).
+    rewrite D1, Q1 in C1. rewrite D2 in C2. rewrite D3, Q3 in C3. rewrite D4, Q4 in C4. cbn [b2n] in C1, C2, C3, C4.
+    apply (K_after s (setF f xd s) 0 (b2n (pi_r x0)) 0 0 HK); try reflexivity.
+    + clear - C1. lia.
+    + clear - C2. lia.
+    + intros T. destruct HK as [_ _ K3]. fold (nq s) in K3. fold (ncap s) in K3. specialize (K3 T).
+      change (nq (setF f xd s)) with (nq s). clear - K3 C3 C4. lia.
+    + intros _ _ _. right. change (nq (setF f xd s)) with (nq s). unfold nq. rewrite Hq. cbn [length]. clear. lia.
+Qed.
